@@ -361,6 +361,8 @@ func checkC03(w *World) {
 	w.floorSites(P, "R03.6", 20)
 	// abbreviated steps (@, .., //, implicit child) collect only through the normalising selectors
 	w.include(P, "C01", "R01.4")
+	// two nodes are duplicates when their positions are equal: every node must get a position of its own
+	w.include(P, "C10", "R10.4")
 }
 
 // dedupeShape: fn(slice) returns a slice to which elements of the input are appended under Pos() != Pos()
